@@ -52,9 +52,8 @@ Put(file, off, be, val) == [file |-> file, off |-> off, be |-> be, val |-> val]
 
 \* C17: for the one-record template of type t, counts that no data backs, with the record
 \* length and the header length a size-only validator expects for them
-Unbacked(t) ==
-    LET s  == Shape(t, 1)
-        np == Len(s.parts)
+UnbackedFor(t, s) ==
+    LET np == Len(s.parts)
         nq == NumPoints(s)
         c  == 112                                  \* first content byte of record 1
         cntOff == IF HasParts(t) THEN c + 36 ELSE c + 32
@@ -69,13 +68,32 @@ Unbacked(t) ==
              \o (IF HasParts(t) THEN << PartCombo(1000000), PartCombo(100000000), PartCombo(70000) >> ELSE << >>)
 
 \* an index whose header declares far more entries than the file holds
+Unbacked(t) == UnbackedFor(t, Shape(t, 1))
+
+\* a record with really many vertices (more than any pre-allocation cap a reader may use), whose
+\* count is then inflated: the data stops after BigN real points
+BigN == 1500
+BigShape(t) ==
+    LET pts == Pts(t, 1, BigN)
+        parts == IF HasParts(t) THEN << pts, Pts(t, 2, 2) >> ELSE << pts >>
+    IN  [t |-> t, parts |-> parts, kinds |-> IF t = 31 THEN << 2, 0 >> ELSE << >>,
+         box |-> BoxOfPoints(t, Concat(parts))]
+BigTemplate(t) ==
+    LET s == BigShape(t)
+    IN  [t |-> t, n |-> 1, big |-> TRUE,
+         combos |-> UnbackedFor(t, s),
+         shp |-> EncodeShp(t, ZeroBox, << s >>),
+         shx |-> EncodeShx(t, ZeroBox, << s >>),
+         fields |-> << Fld("shp", 104, TRUE, "content length"),
+                       Fld("shp", IF HasParts(t) THEN 112 + 36 ELSE 112 + 32, FALSE, "point count") >>]
+
 UnbackedIndex == << << Put("shx", 24, TRUE, I32Max) >>, << Put("shx", 24, TRUE, 1073741823) >>,
                     << Put("shx", 24, TRUE, 50 + 4 * 10000000) >>, << Put("shx", 24, TRUE, -1) >> >>
 
 Template(t, n) ==
     LET shapes == [k \in 1..n |-> Shape(t, k)]
         ss == SetToSeq({}) \o [k \in 1..n |-> shapes[k]]
-    IN  [t |-> t, n |-> n,
+    IN  [t |-> t, n |-> n, big |-> FALSE,
          combos |-> (IF n = 1 THEN Unbacked(t) ELSE << >>) \o UnbackedIndex,
          shp |-> EncodeShp(t, ZeroBox, ss),
          shx |-> EncodeShx(t, ZeroBox, ss),
@@ -100,6 +118,7 @@ MetaLine == [ev |-> "meta", exactxy |-> TRUE,
              boundary |-> SetToSeq(Boundary)]
 
 Templates == { Template(t, n) : t \in Concrete, n \in {1, 2} }
+             \cup { BigTemplate(t) : t \in { c \in Concrete : ~IsPointType(c) } }
 
 ASSUME /\ ndJsonSerialize(IOEnv.OUT, << MetaLine >> \o SetToSeq(Templates))
        /\ PrintT(<< "GENERATED", Cardinality(Templates) >>)
